@@ -71,6 +71,7 @@ type FuncVC struct {
 	revealed        []string
 	footprints      map[string][]HeapKey
 	appNames        map[string]string
+	aliases         map[string]string // contract name -> local variable standing in for it (see verifyWithAliases)
 	sideStack       [][]string
 	pureEnsDepth    int
 	binderDepth     int // >0 while evaluating under a quantifier: no facts may be emitted (they would mention bound variables)
@@ -697,10 +698,12 @@ func (fv *FuncVC) loopHeader(fr *Frame, h *ssa.BasicBlock, cur *State, reach str
 		fmt.Fprintf(os.Stderr, "[debug] %s loop %d havoc all=%v keys=%v\n", shortFuncName(fr.fn), li.ordinal, all, keys)
 	}
 	if all {
+		restore := fv.keepProtected(cur, keys)
 		fv.ctx.nfresh++
 		cur.heap = map[string]string{}
 		cur.epoch = 1000000 + fv.ctx.nfresh
 		cur.touch()
+		restore()
 	} else {
 		general, gall := fv.loopGeneralWrites(fr, li)
 		for _, k := range keys {
